@@ -471,9 +471,34 @@ def search_requests(rng, n):
       kw.update(nopt=2, ncon=1)
     elif style == 7 and ep not in ("search", "spe_search"):
       kw.update(ntask=3, constraints="yes")
+    elif style == 9:   # priors together with linear constraints (the prior samplers ignore constraints: the views must not use them)
+      kw.update(priors="yes", constraints="yes")
+    elif style == 10:  # the same in the initialisation phase / with many open suggestions (non-model-based branches)
+      kw.update(priors="yes", constraints="yes", npend=rng.choice([0, 6, 12]))
     r = U.gen_request(rng, ep, **kw)
+    if style == 10:
+      r["budget"] = rng.choice([20 * r["n_obs"], 50 * r["n_obs"], 2 * r["n_obs"]])
     if style == 8:  # phase boundaries of the budget
       r["budget"] = rng.choice([r["n_obs"], r["n_obs"] + 1, int(r["n_obs"] / 0.15) + 1, int(r["n_obs"] / 0.75), 5 * r["n_obs"], int(r["n_obs"] / 0.4)])
+    reqs.append(r)
+  return reqs
+
+
+def cheap_requests(rng, n):
+  """The model-free and Parzen endpoints cost ~0.1 s per call: sweep the cross product of the branches they take (priors x kind of
+  constraint x budget phase x number of open suggestions x tasks), which the mixed plan above reaches only a few times per run."""
+  reqs = []
+  eps = ["spe", "random", "spe_search"]
+  phases = [50, 20, 6, 3, 1.5, 1.0]      # budget / observations: initialisation ... completion
+  for i in range(n):
+    ep = eps[i % 3]
+    kw = dict(n_obs=rng.randint(10, 40), priors=["yes", "no", "yes", "maybe"][(i // 3) % 4], constraints=["yes", "yes", "no", "maybe"][(i // 12) % 4])
+    kw["npend"] = [0, 0, 1, 3, 25, 60][(i // 48) % 6 if i >= 48 else rng.randrange(6)]
+    if ep != "spe_search":
+      kw["ntask"] = rng.choice([0, 0, 2, 3])
+    kw["discrete_only"] = rng.random() < 0.15
+    r = U.gen_request(rng, ep, **kw)
+    r["budget"] = max(1, int(r["n_obs"] * phases[(i // 3) % 6] + rng.choice([0, 0, 1])))
     reqs.append(r)
   return reqs
 
@@ -486,6 +511,7 @@ def search(ctx, hints, broken):
     if isinstance(inp, dict) and "endpoint" in inp and "seed" in inp:
       reqs.append(inp)
   reqs += search_requests(ctx.rng, ctx.n(165, 900) * (2 if broken else 1))
+  reqs += cheap_requests(ctx.rng, ctx.n(720, 6000) * (2 if broken else 1))
   outs = pool_map(U.run_endpoint, reqs)
   seen = set()
   for req, out in zip(reqs, outs):
